@@ -40,6 +40,13 @@ def _cli_contig_mode(contigs):
 
 
 def replay(args, outdir):
+    if args['lemma'] == 'L6_read_groups_declared':
+        import importlib
+        H = importlib.import_module('harness.C05')
+        ok = H._l6_read_groups(**args['cex'])   # the driver under test is the real function; its environment is the step world
+        if ok:
+            return dict(reproduced=False)
+        return dict(reproduced=True, signature='L6_read_groups_declared:undeclared_read_group', what='a written record carries a read group that is not passed to the header rewrite: %r' % (args['cex'],))
     if args['lemma'] == 'L5_job_bookkeeping':
         a, lemma = args['cex'], args['lemma']
         import singlecellmultiomics.universalBamTagger.tagging as TG
